@@ -33,9 +33,10 @@ def main(argv):
             ck.note('self-test: %d mutants detected, %d benign edits silent, %d stale patches' % (len(det), len(sil), len([r for r in res if r[1] == 'stale'])))
             ck.selftest = [dict(patch=os.path.relpath(r[0], os.path.dirname(os.path.dirname(os.path.abspath(__file__)))), verdict=r[1], report=r[2]) for r in res]
             for r in res:
-                print('  self-test %-11s %s %s' % (r[1], os.path.basename(r[0]), r[2][:120]))
+                nm = os.path.basename(r[0]) if 'seeded' not in r[0] else os.path.basename(os.path.dirname(r[0])) + '/patch.diff'
+                print('  self-test %-11s %s %s' % (r[1], nm, r[2][:240]))
                 if r[1] in ('missed', 'false-alarm'):
-                    ck.broken.append('self-test: %s %s (%s)' % (r[1], os.path.basename(r[0]), r[2]))
+                    ck.broken.append('self-test: %s %s (%s)' % (r[1], nm, r[2]))
         return ck.finish()
     except AnalysisBroken as e:
         print('ANALYSIS-BROKEN property=%s %s' % (pid, e))
